@@ -4,10 +4,12 @@
     (flt inc  <table> <pred|N> <kwconds> <dictconds|N>)          -> ok <table> | err Kind
     (flt exc  <table> <pred|N> <kwconds> <dictconds|N>)          -> ok <table> | err Kind
     (flt find <table> S:key <pred|N> <kwconds> <dictconds|N>)    -> ok <cell>  | err Kind
+    (flt one  <table> <pred|N> <kwconds> <dictconds|N> <excconds|N> <S:find|N>)  -> ok N | ok (D (col cell)*) | ok <cell> | err Kind
   table     (D (col (L cell*))*)
   conds     (D (col value)*)      value: cell | (L cell*) | (T cell*) | (re S:pattern) | (re S:pattern I)
             pattern: [^] (alphanumeric | .)* [$]; `I` = re.IGNORECASE
-  pred      (fn isnone S:a) | (fn notnone S:a) | (fn isstr S:a) | (fn samenone S:a S:b) | (fn const B:0|B:1)
+  pred      (fn ident S:a) | (fn orelse S:a S:b) | (fn constv cell)   -- non-bool returns, read by truthiness
+            | (fn isnone S:a) | (fn notnone S:a) | (fn isstr S:a) | (fn samenone S:a S:b) | (fn const B:0|B:1)
 -/
 import PygModel.Filter
 import PygModel.TableDriver
@@ -40,6 +42,11 @@ def condOf : Sexp → Option Cond
 def predOf : Sexp → Option (Option Pred)
   | .atom "N" => some Option.none
   | .node [.atom "fn", .atom "isnone", a] => (strOf a).map fun a => some (.isNone a)
+  | .node [.atom "fn", .atom "ident", a] => (strOf a).map fun a => some (.ident a)
+  | .node [.atom "fn", .atom "orelse", a, b] => do
+      let a ← strOf a; let b ← strOf b
+      if a == b then Option.none else pure (some (.orElse a b))
+  | .node [.atom "fn", .atom "constv", c] => (cellOf c).map fun c => some (.constv c)
   | .node [.atom "fn", .atom "notnone", a] => (strOf a).map fun a => some (.notNone a)
   | .node [.atom "fn", .atom "isstr", a] => (strOf a).map fun a => some (.isStr a)
   | .node [.atom "fn", .atom "samenone", a, b] => do
@@ -81,6 +88,21 @@ def handle1 (op : String) (args : List Sexp) : Option String :=
   | "find", [t, k, p, kw, dc] => do
       let t ← tableOf t; let k ← strOf k; let p ← predOf p; let cs ← condsOf kw dc
       pure (reply (t.find k (p.map Pred.eval) cs) Cell.render)
+  | "one", [t, p, kw, dc, ex, fd] => do
+      let t ← tableOf t; let p ← predOf p; let cs ← condsOf kw dc
+      let ex ← match ex with
+        | .atom "N" => some []
+        | e => do
+            let e ← dictOf condOf e
+            if !nodupKeys e then Option.none
+            pure e
+      let fd ← match fd with
+        | .atom "N" => some Option.none
+        | f => (strOf f).map some
+      pure (reply (t.oneOrNone (p.map Pred.eval) cs ex fd) fun r => match r with
+        | .none => "N"
+        | .row r => (Val.dict (r.map fun kv => (kv.1, Val.cell kv.2))).render
+        | .cell c => c.render)
   | _, _ => Option.none
 
 def handle (s : St) (op : String) (args : List Sexp) : Option (St × String) :=
